@@ -544,6 +544,10 @@ class MQTTProtocol(MQTTBaseProtocol):
         '''
         Refills the Publisher transmission window from the queue 
         '''
+        # a callback or errback fired just before may have called disconnect():
+        # nothing goes out after the DISCONNECT, the queue waits for the next connection
+        if self.state is self.CLOSING:
+            return
         cnx = self.addr
         queue  = self.factory.queuePublishTx[cnx]
         window = self.factory.windowPublish[cnx]
